@@ -486,3 +486,35 @@ def pmap(fn, items, procs=None):
     ctx = mp.get_context("fork")
     with ctx.Pool(procs) as pool:
         return pool.map(fn, items, chunksize=max(1, len(items) // (procs * 8)))
+
+
+# --------------------------------------------------------------------------- enumerated cases (B3)
+def cfg_text(constants, invariants=(), spec="Spec", overrides=None, properties=(), extra=""):
+    """Build a TLC cfg: constants is name -> python value (ints, bools, strings)."""
+    lines = [f"SPECIFICATION {spec}"]
+    for k, v in constants.items():
+        lines.append(f"CONSTANT {k} = {to_tla(v)}")
+    for k, v in (overrides or {}).items():
+        lines.append(f"CONSTANT {k} <- {v}")
+    for i in invariants:
+        lines.append(f"INVARIANT {i}")
+    for p in properties:
+        lines.append(f"PROPERTY {p}")
+    lines.append("CHECK_DEADLOCK FALSE")
+    return "\n".join(lines) + "\n" + extra
+
+
+def tlc_cases(module, constants, invariants, overrides=None, mc_defs=None, timeout=1800, heap="6g", workers=1):
+    """Run an Init-only (or small) spec whose invariant `Emit` prints one JSON case per state.
+    Returns (TLCResult, [cases]).  The other invariants are the laws checked on every case."""
+    files = {}
+    mod = module
+    if mc_defs:
+        mod = "MC_" + module
+        files[mod + ".tla"] = f"---- MODULE {mod} ----\nEXTENDS {module}\n{mc_defs}\n====\n"
+    files[mod + ".cfg"] = cfg_text(constants, invariants, overrides=overrides)
+    d = stage_spec([module], files)
+    r = run_tlc(d, mod, mod + ".cfg", workers=workers, timeout=timeout, heap=heap, want_trace=True)
+    cases = printed_json(r.out)
+    shutil.rmtree(d, ignore_errors=True)
+    return r, cases
